@@ -566,10 +566,36 @@ where
             }
         }
         let ms_ref = sum_ref / n as f64;
-        let (ms_impl, out) = match catch(|| (F::fl(rms.clone().next_squared(f))[0], F::fl(rms.next(f))[0])) {
+        // small windows: both forms from the same state (one of them on a clone); large windows
+        // (cloning 64 K frames per step is too slow): next_squared() + current() on even steps,
+        // next() alone on odd steps
+        let r = if n <= 2000 {
+            catch(|| (F::fl(rms.clone().next_squared(f))[0], F::fl(rms.next(f))[0]))
+        } else if t % 2 == 0 {
+            catch(|| {
+                let ms = F::fl(rms.next_squared(f))[0];
+                (ms, F::fl(rms.current())[0])
+            })
+        } else {
+            catch(|| {
+                let out = F::fl(rms.next(f))[0];
+                (ms_ref, out)
+            })
+        };
+        let (ms_impl, out) = match r {
             Ok(x) => x,
             Err(p) => return Some(("rms.panic".into(), format!("{} N={n} long run step {t}: panicked: {p}", F::NAME))),
         };
+        if n > 2000 && t % 2 == 1 {
+            // next() alone: its square against the recomputed mean square, same drift bound (plus the sqrt tolerance)
+            let b = 4.0 * (t + n) as f64 * F::EPS + 1e-12;
+            let sq = out * out;
+            let tol = if NOSTD { 0.15 * ms_ref + 1e-18 } else { 8.0 * F::EPS * ms_ref };
+            if !(out >= 0.0) || (sq - ms_ref).abs() > b + tol {
+                return Some(("rms.drift".into(), format!("{} N={n} long run step {t}: next()={out:e}, its square {sq:e} vs recomputed mean square {ms_ref:e} (bound {:e})", F::NAME, b + tol)));
+            }
+            continue;
+        }
         let bound = 4.0 * (t + n) as f64 * F::EPS + 1e-12;
         if !(ms_impl >= 0.0) || (ms_impl - ms_ref).abs() > bound || !sqrt_ok(out, ms_impl, F::EPS) {
             return Some(("rms.drift".into(), format!("{} N={n} long run step {t}: next()={out:e} mean square {ms_impl:e} vs recomputed {ms_ref:e} (bound {bound:e})", F::NAME)));
@@ -810,7 +836,7 @@ fn main() {
     let nmax = ctx.tier.pick(3, 4);
     ctx.rule(&format!("build={}: merged — stateright BFS to fixpoint over the real Rms detector, state = (first, window contents, running sum) read with clone().into_parts(), rebuilt per transition by replaying the BFS witness history on a fresh detector; window N=1..={nmax}; frames [f32;1] [f32;2] [f64;1] [i16;2] [u8;1]; exact dyadic alphabets (every square and window sum exact); actions next(a)/next_squared(a)/current()/reset(); oracle: exact mean of the squares of the last N inputs, sqrt within {} , reset() restores the all-zero state (window and sum read back); distinct by (state, action, observation)", if NOSTD {"no_std"} else {"std"}, if NOSTD {"7% + 1e-18 (approximate sqrt)"} else {"2 ulp"}));
     ctx.rule("cancellation — unmerged DFS over every history of length <= 2N+2 over the non-dyadic alphabet {0,1e-9,1e-4,1e-3,0.1,0.3,0.7,1.0} plus reset() after any prefix, f32 and f64 mono, N=1..=3: mean square within 4(t+N)eps of the f64 recomputation, never negative or NaN, next() == sqrt(next_squared()) within the build's sqrt tolerance, reset() restores the all-zero state (window and running sum read back) even when rounding has absorbed small squares");
-    ctx.rule("drift — one long deterministic burst/silence run per (format, N in {1,7,64,1000,65535,65536,65537}), at least four windows long; labelled single executions");
+    ctx.rule("drift — one long deterministic burst/silence run per (format, N in {1,7,64,1000,1024,4096,44100,48000,65535,65536,65537}), at least four windows long; labelled single executions");
     if !NOSTD {
         ctx.rule("adaptor — signal.rms(ring) over every 4-frame source over the [f32;2] alphabet, N=1..=3, 6 outputs: bit-identical to the detector fed the same frames, one source pull per output, is_exhausted forwarded");
     }
@@ -867,7 +893,7 @@ fn main() {
     // drift runs
     let steps = ctx.tier.pick(100_000, 1_000_000);
     // (windows around 2^16: an index or counter kept in 16 bits would wrap; those runs last 4 windows)
-    let djobs: Vec<(usize, usize)> = (0..4).flat_map(|t| [1usize, 7, 64, 1000, 65535, 65536, 65537].into_iter().map(move |n| (t, n))).collect();
+    let djobs: Vec<(usize, usize)> = (0..4).flat_map(|t| [1usize, 7, 64, 1000, 1024, 4096, 44100, 48000, 65535, 65536, 65537].into_iter().map(move |n| (t, n))).collect();
     djobs.par_iter().for_each(|&(t, n)| {
         let name = ["[f32;1]", "[f64;1]", "[i16;2]", "[u8;1]"][t];
         let steps = steps.max(4 * n);
